@@ -67,11 +67,14 @@ func (v *notation_) GetClass() col.NotationClassLike {
 // Canonical
 
 func (v *notation_) FormatValue(value any) (source string) {
-	source = v.formatter_.FormatValue(value)
+	// A notation is shared by every collection of a class, possibly in
+	// different go-routines, so each call gets a formatter of its own.
+	source = Formatter().Make().FormatValue(value)
 	return source
 }
 
 func (v *notation_) ParseSource(source string) (value any) {
-	value = v.parser_.ParseSource(source)
+	// Each call gets a parser of its own (see FormatValue).
+	value = Parser().Make().ParseSource(source)
 	return value
 }
